@@ -55,8 +55,12 @@ def m_data_ops(ex, c, args, m):
     if m.group(3) == 'clone': return cp(a)
     e = val_eq(a, dd(args[1])); return e if m.group(3) == 'eq' else z3.Not(e)
 
-@M.add(r'::new_boxed$')
-def m_new_boxed(ex, c, args, m): return boxed(Struct({}, 'SubstMethodImpl'))
+@M.add(r'::new_boxed$', first=True)
+def m_new_boxed(ex, c, args, m):
+    # Box<dyn SubstMethod>: the unit struct of the chosen method; `S` is with_subst_method's type parameter (EGraph::new fixes it to SynExprSubst)
+    mm = re.match(r'^<(?:[\w:]*::)?(\w+) as ', c)
+    ty = mm.group(1) if mm and mm.group(1) not in ('S', 'Self') else ex.resolver.tymap.get('S', 'SynExprSubst')
+    return boxed(Struct({}, ty))
 
 M.consts[r'(^|::)SLOT_TABLE$'] = lambda ex, body: Opaque(('static', 'SLOT_TABLE'))
 
